@@ -65,7 +65,7 @@ DEFAULT_OMEN = dict(ngram=2, alphabet=['a', 'b'], ip={'a': 0, 'b': 1},
                     cp={'aa': 0, 'ab': 1, 'ba': 0, 'bb': 2}, ep={'a': 0, 'b': 0}, ln=[10, 0, 1])
 
 
-def write_omen(d, omen, encoding='utf-8', order=None):
+def write_omen(d, omen, encoding='utf-8', order=None, final_newline=True):
     """order: how the lines of IP / CP / EP.level are arranged - None (as given: grouped by context, as the trainer writes them),
     'by_level' (sort -n), 'reversed'.  The format has no ordering rule; the meaning of the files is the set of their lines."""
     os.makedirs(d, exist_ok=True)
@@ -86,6 +86,15 @@ def write_omen(d, omen, encoding='utf-8', order=None):
     with open(os.path.join(d, 'LN.level'), 'w') as f:
         for lvl in omen['ln']:
             f.write('%d\n' % lvl)
+    if not final_newline:
+        # the last line of a text file need not be terminated
+        for name in ('IP.level', 'CP.level', 'EP.level', 'LN.level', 'alphabet.txt'):
+            fn = os.path.join(d, name)
+            with open(fn, 'rb') as f:
+                data = f.read()
+            if data.endswith(b'\n'):
+                with open(fn, 'wb') as f:
+                    f.write(data[:-1])
 
 
 # --------------------------------------------------------------------------
